@@ -168,7 +168,7 @@ def install(gate, cfg):
 def define(d, variant, k):
     """(re)write m.py with the variant's declaration and import it afresh: this runs the metaclass and the cache protocol"""
     path = os.path.join(d, 'm_%d_%d.py' % (os.getpid(), k))
-    with builtins.open(path, 'w') as f:
+    with builtins.open(path, 'w', encoding='utf-8') as f:
         f.write(source(variant))
     spec = importlib.util.spec_from_file_location('m', path)
     mod = importlib.util.module_from_spec(spec)
@@ -182,7 +182,7 @@ def reference(d, variant, k):
     conf, body, prelude = vdef(variant)
     tag = hashlib.sha1(variant.encode()).hexdigest()[:10]
     path = os.path.join(d, 'ref_%s_%d.py' % (tag, os.getpid()))
-    with builtins.open(path, 'w') as f:
+    with builtins.open(path, 'w', encoding='utf-8') as f:
         f.write("from bisturi.packet import Packet\nfrom bisturi.field import Int, Data\n" + prelude +
                 f"class R(Packet):\n    __bisturi__ = dict({conf}, generate_for_pack=False, generate_for_unpack=False)\n    {body}\n")
     spec = importlib.util.spec_from_file_location('ref_%s' % tag, path)
@@ -215,12 +215,12 @@ def main():
         for k, variant in enumerate(cfg['variants']):
             try:
                 define(d, variant, k)
-                text = builtins.open(os.path.join(d, '__pkts__', 'm_P.py')).read()
+                text = builtins.open(os.path.join(d, '__pkts__', 'm_P.py'), encoding='utf-8', errors='replace').read()
                 m = _re.search(r"(?m)^(\w*COOKIE\w*) = '([^']*)'\s*$", text)
                 res.append([m.group(2) if m else None, hashlib.sha1(_re.sub(r"(?m)^\w*COOKIE\w* = '[^']*'\s*$", '', text).encode()).hexdigest()])
             except BaseException as e:
                 res.append([None, 'EXC:' + type(e).__name__])
-        json.dump({'cookies': res}, builtins.open(sys.argv[2], 'w'))
+        json.dump({'cookies': res}, builtins.open(sys.argv[2], 'w'), default=lambda o: {'object': type(o).__name__})
         return
     out = {'steps': []}
     for k, step in enumerate(cfg['steps']):
@@ -240,7 +240,7 @@ def main():
         rec['after'] = cache_state(d)
         rec['ops'] = gate.log[n0:]
         out['steps'].append(rec)
-    json.dump(out, builtins.open(sys.argv[2], 'w'))
+    json.dump(out, builtins.open(sys.argv[2], 'w'), default=lambda o: {'object': type(o).__name__})
     if cfg.get('mode') == 'sched':
         sys.stdout.write("DONE\n"); sys.stdout.flush()
 
